@@ -183,7 +183,14 @@ def run(ctx):
                 for (a, b, c) in ((0, 0, 1), (1, 0, 1), (0, 1, 0), (1, 1, 0)):
                     smp = [mk_sample(rng, s, (MU if q else -MU) + rng.choice([0, ERR, -ERR])) for q in (a, b, c)]
                     sl.append((lam, 'gatecase %s %d %s' % (spec, 13 + 100 * al, ' '.join(fmt(a_) + ' ' + str(b_) for (a_, b_) in smp)), f(a, b, c), 'MUX', {4: 'b is the object a', 5: 'c is the object a', 6: 'c is the object b'}[al]))
-        if not thorough: sl = [x for x in sl if x[3] == 'MUX'][::2] + [x for x in sl if x[3] != 'MUX'][::(1 if build == 'optim' else 3)]
+        # (vi) an FFT-only cloud key (bk = NULL) derived through the lower-level API, whose source LweBootstrappingKey was refilled for other
+        #      secrets and deleted: "every cloud key derived from it"
+        for lam in (128, 80):
+            pick = rng.sample(hist[lam], min(len(hist[lam]), 12 if not thorough else 60))
+            for (line, exp, g, kind) in pick:
+                t = line.split(' ', 12)
+                sl.append((lam, ' '.join(t[:11] + [str(int(t[11]) + 700)] + t[12:]), exp, g, 'the cloud key is FFT-only and its source key was refilled and deleted (%s inputs)' % kind))
+        if not thorough: sl = [x for x in sl if 'FFT-only' in x[4]][::(1 if build == 'optim' else 4)] + [x for x in sl if x[3] == 'MUX' and 'FFT-only' not in x[4]][::2] + [x for x in sl if x[3] != 'MUX' and 'FFT-only' not in x[4]][::(1 if build == 'optim' else 3)]
         so = vlib.run_lines(exe, [x[1] for x in sl], timeout=7200)
         for (lam, line, exp, g, what), o in zip(sl, so):
             ctx.count((backend, build, 'shared-operands', line[:4000])); ncases += 1
